@@ -140,6 +140,54 @@ def shape_map_for(ts, cfg, r):
     return "\n".join(lines)
 
 
+def chain_case(r, cfg):
+    """reference chains/cascades between shape-map labels: layers L0 -> L1 -> ... -> sink, where the sink nodes have no
+    outgoing triple (their shape is empty and removed), the middle layers only point downwards (they become empty
+    once the layer below is gone), L0 also has a literal (survives); with branching (two sinks / two properties),
+    cycles inside a middle layer that still end in a sink, and class-typed middle nodes (which keep their shape)"""
+    e = "http://ex.org/"
+    depth = r.randint(2, 4)
+    if not any(n == e for n, _ in cfg["ns"]):
+        cfg["ns"] = cfg["ns"] + [(e, "ex")]
+    exp = [p for n, p in cfg["ns"] if n == e][0]
+    forms = [lambda k: "<http://ex.org/shapes/L%d>" % k, lambda k: "%s:L%d" % (exp, k),
+             lambda k: "<http://weso.es/shapes/L%d>" % k, lambda k: "<http://lab.example/x#L%d>" % k]
+    label = {k: r.choice(forms)(k) for k in range(depth + 1)}
+    width = r.randint(1, 3)
+    layer = {k: [("I", e + "n%d_%d" % (k, j)) for j in range(width)] for k in range(depth + 1)}
+    ts, lines = [], []
+    branch = r.random() < 0.4           # a second sink label reached from the last middle layer
+    if branch:
+        label["x"] = "<http://ex.org/shapes/LX>"
+        layer["x"] = [("I", e + "x%d" % j) for j in range(width)]
+    cyc = r.choice([None, None] + list(range(1, depth))) if depth > 1 else None
+    typed = r.choice([None, None, None] + list(range(1, depth))) if depth > 1 else None
+    for k in range(depth):
+        for j, n in enumerate(layer[k]):
+            for m in (layer[k + 1] if r.random() < 0.5 else layer[k + 1][:1]):
+                ts.append((n, e + "q%d" % k, m))
+            if k == 0:
+                ts.append((n, e + "name", ("L", "v%d" % j, pipe.XSD + "string")))
+            if k == depth - 1 and branch:
+                ts.append((n, e + ("q%d" % k if r.random() < 0.5 else "r"), layer["x"][j % width]))
+            if cyc == k:
+                ts.append((n, e + "loop", layer[k][(j + 1) % width]))
+            if typed == k and r.random() < 0.7:
+                ts.append((n, T, ("I", e + "C%d" % k)))
+    for k in list(range(depth + 1)) + (["x"] if branch else []):
+        for n in layer[k]:
+            lines.append("<%s>@%s" % (n[1], label[k]))
+    r.shuffle(ts)
+    r.shuffle(lines)
+    cfg["_shape_map"] = "\n".join(lines)
+    cfg["all_classes"] = False
+    cfg["targets"] = []
+    cfg["cap"] = -1
+    cfg["remove_empty_shapes"] = r.random() < 0.9
+    cfg["thr"] = (0, 1) if r.random() < 0.8 else cfg["thr"]
+    return ts
+
+
 def turtle_doc(ts, prefix):
     """the triples as a Turtle document that declares `prefix` for http://ex.org/ (rdflib hands it to sheXer)"""
     return "@prefix %s: <http://ex.org/> .\n" % prefix + pipe.nt_doc(ts)
@@ -196,6 +244,10 @@ def gen_cases(tier, rnd):
             cfg["_doc"] = turtle_doc(ts, cfg["_doc_prefix"])
             runs = [(ts, cfg, "shexc_ttl")]
             stream = "turtle-parsed-prefixes"
+        elif i % 16 == 1:
+            ts = chain_case(r, cfg)
+            runs = [(ts, cfg, "shexc_map")]
+            stream = "reference-chains"
         elif i % 16 == 13:
             cfg["_shape_map"] = shape_map_for(ts, cfg, r)
             cfg["all_classes"] = False
@@ -294,7 +346,8 @@ class Spec(pipeprops.PropSpec):
             "round-robin x thresholds on every k/n boundary x targets/all-classes x caps x remove_empty on/off x OR "
             "on/off x user dictionaries colliding with 0-3 of the default shape prefixes ('', weso-s, shapes, w-shapes) "
             "or naming the shapes namespace; streams: all four prefixes taken (random fallback, oracle only), shape-map "
-            "labels as full IRIs / prefixed names with nodes without triples (oracle only), Turtle input whose parsed "
+            "labels as full IRIs / prefixed names with nodes without triples, and reference chains/cascades between "
+            "labels ending in sinks (length 2-4, branching, cycles, class-typed nodes; oracle only), Turtle input whose parsed "
             "prefixes are adopted (oracle only; finding when it declares a default shape prefix), custom "
             "shapes_namespace (finding), two classes sharing a local name (finding), local names with dots/dashes/"
             "leading digits; every second case also SHACL; distinct = distinct (document, configuration); "
